@@ -119,9 +119,10 @@ class MicroDVDWriter(BaseWriter):
 
     def _recreate_line(self, sub, line):
         if line.type_ == CaptionNode.TEXT:
-            # a line boundary inside the text (\n, \r, \x0b, \x85, U+2028 ...)
-            # would cut the cue's line in the file: write it as a line break
-            return sub + '|'.join(line.content.splitlines())
+            # a line end inside the text (LF, CR, CR LF - the only line ends
+            # the reader knows) would cut the cue's line in the file: write
+            # it as a line break; U+0085, U+2028 ... are ordinary characters
+            return sub + '|'.join(split_lines(line.content))
         elif line.type_ == CaptionNode.BREAK:
             return sub + '|'
         else:
